@@ -160,6 +160,44 @@ def run(ctx):
                 violations.append({"what": "after the %s of a library-made copy failed once with %s, %s holds %s: not a complete value" % (call, er, f[0], f[7]),
                                    "classification": {"kind": "partial-final-under-fault", "call": call, "situation": pre},
                                    "replay": {"kind": "fault", "scenario": L, "fault_seq": seq, "errno": er}})
+    # a populate callback that writes part of its value and then gives up (its streamed source
+    # vanished: NotFound): nothing it wrote may ever be served or left under the key's name
+    pjobs = []
+    for w in (("plain", 300), ("sharded", 4, 1200), None):
+        for pre in ("miss", "present", "secondary"):
+            if w is None and pre == "present":
+                continue
+            for opl in (G.op(0, "ensure", KEYC, "pnf:%s:3" % K.BIG2), G.op(0, "gou", KEYC, "replace", 0, "pnf:%s:3" % K.BIG2), G.op(0, "gou", KEYC, "promote", 1, "pnf:%s:2" % K.BIG2)):
+                L = G.header(w, (("plain",),), "none")
+                if pre == "present":
+                    L.append(G.plant(G.key_path(w, "w", KEYC), K.BIG1))
+                if pre == "secondary":
+                    L.append(G.plant("r0/" + KEYC[0], K.BIG1))
+                L += [G.NOFIRE, opl, G.NOFIRE, G.op(0, "get", KEYC), G.NOFIRE, G.op(0, "ensure", KEYC, "val:%s:2" % K.BIG1), "snap"]
+                pjobs.append(({"w": w[0] if w else "none", "pre": pre, "op": opl.split()[2] + ":" + opl.split()[6]}, L))
+    pres = S.run_many(pjobs, what=("result", "snap"))
+    complete2 = {K.fnv_show(K.BIG1)}
+    for desc, L, impl, model, diffs in pres:
+        if diffs:
+            ties.append({"what": "model and implementation disagree when populate fails part-way", "case": str(desc), "detail": diffs[:3]})
+        else:
+            agree += 1
+        if impl is None:
+            continue
+        for st in sorted(impl.results):
+            cls, d = S.fields(impl.results[st][1])
+            if cls == "OkSome":
+                reads += 1
+                if d.get("content") not in complete2:
+                    violations.append({"what": "populate wrote part of its value and reported NotFound; a later handle for the key reads %s: bytes no writer offered as a value" % d.get("content"),
+                                       "classification": {"kind": "partial-populate-served", "situation": desc["pre"], "op": desc["op"]},
+                                       "replay": {"kind": "scenario", "scenario": L, "result": impl.results[st][1]}})
+        for l in (impl.snaps[-1] if impl.snaps else []):
+            f = l.split(" ")
+            if f[1] == "f" and f[0].startswith("w/") and ".kismet_temp/" not in f[0] and f[7] not in complete2:
+                violations.append({"what": "populate wrote part of its value and reported NotFound; %s holds %s" % (f[0], f[7]),
+                                   "classification": {"kind": "partial-populate-published", "situation": desc["pre"], "op": desc["op"]},
+                                   "replay": {"kind": "scenario", "scenario": L}})
     # a value that lives on another filesystem (the publishing rename / link answers EXDEV): whatever
     # the library does about it, it never builds the value IN PLACE under the key's name - a file
     # that lookups can open is never created empty, truncated or written to
@@ -206,7 +244,7 @@ def run(ctx):
         k = tuple(sorted(v["classification"].items()))
         if k not in seen:
             seen.add(k); uniq.append(v)
-    cov = {"evaluations": len(res) + len(fres) + len(cjobs) + len(xjobs), "copy_fault_runs": len(cjobs), "cross_filesystem_runs": len(xjobs), "distinct_nontrivial": nontriv, "lookup_fault_runs": len(fres),
+    cov = {"evaluations": len(res) + len(fres) + len(cjobs) + len(xjobs) + len(pjobs), "copy_fault_runs": len(cjobs), "cross_filesystem_runs": len(xjobs), "partial_populate_runs": len(pjobs), "distinct_nontrivial": nontriv, "lookup_fault_runs": len(fres),
            "rule": "families {set|get, set|set, put|put, put|set, ensure|ensure, ensure|set, touch|set, promotion from a secondary cache|get, promotion|promotion, get_or_update Replace|get, maintenance (capacity exceeded, trigger firing)|get, |set, |maintenance} x front-end {plain, sharded} with multi-chunk values of 5000 and 7000 bytes: for EVERY filesystem-call boundary of every participant, a context switch to the other participant(s) which run to completion (thorough: two switches at every pair of boundaries, three participants, random schedules). Oracles: every returned handle reads a complete value of its key, at return and again after the others ran; at every scheduling point every key-named file on disk is complete and read-only; final tree likewise; each schedule replayed on the pool model and compared; plus lookups of a not-yet-marked hit whose bookkeeping calls fail (EPERM as for a reader that does not own the file): the handle still yields the whole value; plus promotion / population copies with each read, write or copy call failing once (ENOSPC, EIO): every handle obtained afterwards and every key-named file is complete; plus path-based set / put whose publishing rename / link answers EXDEV: no file is created, truncated or written under the key's own name. Non-trivial = at least two context switches.",
            "samples": [{"family": f["name"], "kind": k} for f, k, *_ in res[:3]], "traces_validated_against_impl": agree,
            "schedule_kinds": kinds, "scheduling_points_inspected": points, "handles_read": reads}
